@@ -3,6 +3,7 @@ import sys
 
 COUNTS = {"body": 0, "reach": 0, "dropped": 0}
 DETAIL = []
+REALISED = []   # values the solver picked on explored paths (written to the evidence as samples)
 TRACED = []   # failure descriptions seen while tracing (diagnostics for non-reproducing counterexamples)
 
 
@@ -58,7 +59,13 @@ def real(x):
     if not tracing():
         return x
     from crosshair.core import deep_realize
-    return deep_realize(x)
+    v = deep_realize(x)
+    if len(REALISED) < 40:
+        try:
+            REALISED.append(repr(v)[:120])
+        except Exception:
+            pass
+    return v
 
 
 def proxy_intolerance(exc):
